@@ -225,5 +225,19 @@ def main(write, HEADER, parse, PKG):
             if isinstance(n, ast.Assign) and len(n.targets) == 1 and _dotted(n.targets[0]) == "avg_height":
                 avg.append("avg_height=" + _expr(n.value))
     out.append(f"def cgfHeights : List String := {_slist(hv + avg)}")
+    # ------------------------------------------------------------ GFunction.g_function_interpolation: when is the table (re)built
+    gfn = _find(parse("gfunction.py"), "GFunction.g_function_interpolation")
+    tests, hourly_q = [], []
+    if gfn is not None:
+        for n in _own_nodes(gfn):
+            if isinstance(n, ast.If) and any(isinstance(t, ast.Subscript) and _dotted(t.value) == "self.interpolation_table"
+                                             for st_ in n.body for t in (st_.targets if isinstance(st_, ast.Assign) else [])):
+                tests.append(_expr(n.test))
+    out.append(f"def tableBuildTests : List String := {_slist(tests)}")
+    if sim is not None:
+        for n in _own_nodes(sim):
+            if isinstance(n, ast.Assign) and len(n.targets) == 1 and _dotted(n.targets[0]) == "q_dot":
+                hourly_q.append(_expr(n.value))
+    out.append(f"def simulateHourlyLoads : List String := {_slist(hourly_q)}")
     out.append("\nend GHEVerif.Gen.Api\n")
     write("Api.lean", "\n".join(out))
